@@ -14,6 +14,7 @@ PROPS = {
             {"name": "parsers", "quick": 8000, "thorough": 400000, "per_shard": 20000},
             {"name": "output", "quick": 1200, "thorough": 60000, "per_shard": 200},
             {"name": "paths", "quick": 2000, "thorough": 100000, "per_shard": 500},
+            {"name": "e2e", "quick": 160, "thorough": 8000, "per_shard": 20},
         ],
         "rule": "counts: op x boundary-structured operand pairs (0,1,cap-1,cap,2^31,2^32±k,2^53,2^63, complements to the cap, equal operands, random); "
                 "distinct = distinct (op,a,b); every case is non-trivial (each exercises one arithmetic function on a fresh pair).",
